@@ -384,6 +384,10 @@ class _Null(object):
     """build a stub object for the NULL singleton"""
     def __repr__(self):
         return "NULL"
+    def __eq__(self, other): # a copy (e.g. restored from a pickle) is the same NULL
+        return isinstance(other, _Null)
+    def __hash__(self):
+        return 0x4e554c4c
 NULL = _Null()
 
 
